@@ -80,6 +80,14 @@ class Ephem(Speaker):
 
         return self._interp
 
+    def _reset_interp(self):
+        """Discard the interpolator (which holds a copy of the coordinates), keeping
+        its settings. It is rebuilt at the next interpolation
+        """
+        if hasattr(self, "_interp"):
+            self._method, self._order = self._interp.method, self._interp.order
+            del self._interp
+
     @property
     def method(self):
         if hasattr(self, "_interp"):
@@ -126,6 +134,7 @@ class Ephem(Speaker):
         """Change the frames of all points"""
         for orb in self:
             orb.frame = frame
+        self._reset_interp()
 
     @property
     def form(self):  # pragma: no cover
@@ -137,6 +146,7 @@ class Ephem(Speaker):
         """Change the form of all points"""
         for orb in self:
             orb.form = form
+        self._reset_interp()
 
     def interpolate(self, date):
         """Interpolate data at a given date
